@@ -870,9 +870,15 @@ class Polyhedron(Shape3D):
 
         # Handle zeros q vector cases up front to allow looping over faces without
         # double checking internally.
+        # A wave vector counts as zero if it is negligible compared to the inverse
+        # size of the polyhedron (not in absolute terms).
         q_sqs = np.sum(q * q, axis=-1)
-        zero_q = np.isclose(q_sqs, 0)
-        form_factor[zero_q] = self.volume
+        size_sq = np.sum(np.ptp(self.vertices, axis=0) ** 2)
+        zero_q = np.isclose(q_sqs * size_sq, 0)
+        if np.any(zero_q):
+            form_factor[zero_q] = self.volume * np.exp(
+                -1j * np.dot(q[zero_q], self.centroid)
+            )
 
         for face, eqn in zip(self.faces, self._equations):
             # Calculate each face's form factor as a polygon. This implementation aims
